@@ -18,7 +18,7 @@ ID = "C18"
 TECHNIQUE = "runtime monitoring: reference-model monitor (exact de Casteljau / subtended angle) on segment calculus, bignum resource guard"
 LEVEL = "exploration"
 RULE = ("random planar Bezier segments of degree 1..6 (int / Fraction / float control points, generic, monotone 'regular' "
-        "ones, nearly straight and looping ones) x parameters (rational and float, ends included) x query points (on the "
+        "ones, nearly straight ones, arches over an axis-parallel chord, segments that end where they start) x parameters (rational and float, ends included) x query points (on the "
         "curve, graded distances, far); each case visits all six degrees in random order, twice; non-trivial = all identities "
         "of at least one degree judged; distinct = distinct case specs")
 ASSUMPTIONS = [
@@ -90,6 +90,9 @@ def random_ctrl(rng, degree, num, family):
             pts.append((val(along), val(a0 + off)) if horizontal else (val(a0 + off), val(along)))
         return tuple(pts), None
     pts = tuple((val(rng.uniform(-size, size)), val(rng.uniform(-size, size))) for _ in range(n))
+    if family == "closed" and n >= 3:
+        # the segment ends where it starts (a loop: teardrop for cubics); its chord has zero length
+        pts = pts[:-1] + (pts[0],)
     return pts, None
 
 
@@ -116,7 +119,7 @@ def judge_degree(case, rng, degree):
     from shapepy import IntegratePlanar
 
     num = rng.choice(["int", "frac", "float", "float"])
-    family = rng.choice(["generic", "generic", "regular", "regular", "straightish", "axis-chord"])
+    family = rng.choice(["generic", "generic", "regular", "regular", "straightish", "axis-chord", "closed"])
     ctrl, direction = random_ctrl(rng, degree, num, family)
     if ctrl is None or len(set(ctrl)) < 2:
         case.count("segment:rejected")
